@@ -461,10 +461,17 @@ func evalCond(cc query.Condition, r *Rec, refTime time.Time, res map[string]*bin
 	case *query.ImpossibleCondition:
 		return false, nil
 	case *query.TagCondition:
+		name := c.TagName
 		if c.SubQuery != "" {
-			return false, fmt.Errorf("sub-query in tag condition")
+			// the tag of the stream a sub-query picks is another fact than the tag of the searched stream: a record
+			// of the universe carries it under "<sub-query>@<tag>" (C03 assigns it as a free atom); without such an
+			// entry the condition cannot be evaluated here
+			name = c.SubQuery + "@" + c.TagName
+			if _, ok := r.Tags[name]; !ok {
+				return false, fmt.Errorf("sub-query in tag condition")
+			}
 		}
-		st, ok := r.Tags[c.TagName]
+		st, ok := r.Tags[name]
 		if !ok {
 			st = TagFailing
 		}
